@@ -12,7 +12,14 @@ A *tree spec* is plain JSON (so it can live in replay / corpus files):
       'kids':  [[name, index], ...]            attributes that are other generated objects
       'disp':  None | dispatcher spec (see make_dispatch)
       'conf':  None | dict                      class attribute _cp_config
+      'same_as': j                              (optional) this object is ANOTHER INSTANCE of node j's class: no class
+                                                fields of its own ('exp', 'call', 'meth', 'vals', 'disp', 'conf' ignored)
+      'imeth': [[name, {'exp': v}], ...]        (optional) probes set on the INSTANCE (setattr), e.g. per-instance verbs
+      'ivals': [[name, json-value], ...]        (optional) instance attributes
+      'iexp':  value                            (optional) instance attribute `exposed`
     }
+  spec['dispatch_name'] (optional): the dispatchers of 'disp' are attached under this name instead of `_cp_dispatch`
+  and the Runner builds Dispatcher(dispatch_method_name=…) / MethodDispatcher(…).
 
 Every probe callable records (pid, positional args, sorted keyword names) in the builder's journal;
 `pid` is "<node>.<method>" or "<node>()" and doubles as the readable identity in replays.
@@ -75,10 +82,16 @@ class Built:
 
         built = self
 
+        is_call = pid.endswith('()')
+
         def probe(*a, **kw):
+            pid_ = pid
             if a and getattr(a[0], '_gen_node', False) is True:
+                if is_call:
+                    # `__call__` lives on the class: name the INSTANCE that was called
+                    pid_ = '%d()' % getattr(a[0], '_gen_inst', int(pid[:-2]))
                 a = a[1:]
-            ent = (pid, [x if isinstance(x, str) else repr(x) for x in a],
+            ent = (pid_, [x if isinstance(x, str) else repr(x) for x in a],
                    {k: (v if isinstance(v, str) else repr(v)) for k, v in kw.items()})
             journal.append(ent)
             if built.tjournal is not None:
@@ -121,6 +134,10 @@ class Built:
         nodes = self.spec['nodes']
         # phase 1: classes and instances
         for i, nd in enumerate(nodes):
+            if nd.get('same_as') is not None:
+                self.classes.append(None)
+                self.objs.append(None)
+                continue
             ns = {'_gen_node': True, '_gen_id': i}
             for name, m in nd.get('meth', []):
                 f = self._probe('%d.%s' % (i, name))
@@ -164,11 +181,33 @@ class Built:
                 cls.exposed = exp
             self.classes.append(cls)
             self.objs.append(cls())
+        # phase 1b: further instances of an existing class, instance-level attributes
+        for i, nd in enumerate(nodes):
+            if nd.get('same_as') is not None:
+                j = nd['same_as']
+                if nodes[j].get('same_as') is not None or self.classes[j] is None:
+                    raise common.HarnessError('same_as must name a node with a class of its own')
+                self.classes[i] = self.classes[j]
+                self.objs[i] = self.classes[j]()
+        for i, nd in enumerate(nodes):
+            o = self.objs[i]
+            object.__setattr__(o, '_gen_inst', i)
+            for name, m in nd.get('imeth', []):
+                f = self._probe('%d.%s' % (i, name))
+                if m.get('exp') is True:
+                    cherrypy.expose(f)
+                elif m.get('exp') is not None:
+                    f.exposed = m['exp']
+                object.__setattr__(o, name, f)
+            for name, v in nd.get('ivals', []):
+                object.__setattr__(o, name, v)
+            if nd.get('iexp') is not None:
+                object.__setattr__(o, 'exposed', nd['iexp'])
         # phase 2: wiring
         for i, nd in enumerate(nodes):
             for name, j in nd.get('kids', []):
                 setattr(self.objs[i], name, self.objs[j])
-            if nd.get('disp') is not None:
+            if nd.get('disp') is not None and nd.get('same_as') is None:
                 self._make_dispatch(i, nd['disp'])
         self.root = self.objs[0]
 
@@ -241,13 +280,18 @@ class Built:
         cherrypy = cp()
         cls = self.classes[i]
         t = d['t']
+        dname = self.spec.get('dispatch_name') or '_cp_dispatch'
         names = list(d['names']) if d.get('names') is not None else ['p%d' % k for k in range(d.get('n', 0))]
         if t == 'popargs_cls':
             cherrypy.popargs(*names)(cls)
-            f = cls.__dict__['_cp_dispatch']
+            # the class decorator attaches under Dispatcher.dispatch_method_name
+            std = cherrypy.dispatch.Dispatcher.dispatch_method_name
+            f = cls.__dict__[std]
             if self.instrument:
                 f = self._recording(i, f)
-                cls._cp_dispatch = f
+            if dname != std:
+                delattr(cls, std)
+            setattr(cls, dname, f)
             self.disp[id(f)] = {'kind': 'popargs', 'names': names, 'h': None}
             self.keep.append(f)
         elif t == 'popargs_attr':
@@ -283,7 +327,7 @@ class Built:
                 desc = {'kind': 'popargs', 'names': names, 'h': ['call', target]}
             if self.instrument:
                 f = self._recording(i, f)
-            cls._cp_dispatch = f
+            setattr(cls, dname, f)
             self.disp[id(f)] = desc
             self.keep.append(f)
         elif t == 'custom':
@@ -323,12 +367,12 @@ class Built:
                 _cp_dispatch = self._recording(i, _cp_dispatch)
             if d.get('exp') is not None:
                 _cp_dispatch.exposed = d['exp']
-            cls._cp_dispatch = _cp_dispatch
+            setattr(cls, dname, _cp_dispatch)
             self.disp[id(_cp_dispatch)] = {'kind': 'custom', 'pop': pop, 'add': add, 'mut': mut,
                                            'ret': ret if isinstance(ret, str) else ['fixed', target]}
             self.keep.append(_cp_dispatch)
         elif t == 'value':
-            cls._cp_dispatch = d['v']
+            setattr(cls, dname, d['v'])
         else:
             raise common.HarnessError('unknown dispatcher spec %r' % (d,))
 
@@ -475,7 +519,7 @@ class View:
             elif getattr(o, '_gen_node', False) is True and not isinstance(o, type):
                 c = type(o).__dict__.get('__call__')
                 if c is not None and isinstance(getattr(c, '_pid', None), str):
-                    self.pid[nid] = c._pid             # callable instance
+                    self.pid[nid] = '%d()' % getattr(o, '_gen_inst', int(c._pid[:-2]))     # callable instance
 
     def _opt(self, o, d):
         return 'N' if o is None else str(self.visit(o, d + 1))
@@ -590,7 +634,11 @@ class Runner:
         self.seen_path = []
         self.seen_outer = []
         self.kind = kind
-        inner = cherrypy.dispatch.MethodDispatcher() if kind == 'M' else cherrypy.dispatch.Dispatcher()
+        dname = built.spec.get('dispatch_name')
+        if dname:
+            inner = cherrypy.dispatch.MethodDispatcher(dname) if kind == 'M' else cherrypy.dispatch.Dispatcher(dname)
+        else:
+            inner = cherrypy.dispatch.MethodDispatcher() if kind == 'M' else cherrypy.dispatch.Dispatcher()
         seen = self.seen_path
         outer_seen = self.seen_outer
 
